@@ -4,6 +4,7 @@ import PV.Model.HashTable
 
 Spec: a map `Ptr → Option Ptr` (function) and plain `List` operations.
 All theorems are for every 64-bit key/value pattern and every operation sequence.
+Creation under allocation failure (`newTable_failure_clean`, `newTable_ok`; harness op `newf K`) is at the end.
 -/
 namespace PV.HT
 open PV.Generated
@@ -570,6 +571,17 @@ theorem lLength_eq (l : PList) : lLength l = l.length := by
     | nil => rfl
     | cons y ys => simp only [lLength, ih, List.length_cons]
 
+/-! ## creation (`p_hash_table_new`) with scripted allocation results -/
+
+/-- a creation whose handle or bucket-array allocation fails gives NULL and keeps no block (the handle is given back) -/
+theorem newTable_failure_clean (handleOk arrayOk : Bool) (h : (handleOk && arrayOk) = false) :
+    newTable handleOk arrayOk = (none, 0) := by
+  cases handleOk <;> cases arrayOk <;> simp_all [newTable]
+
+/-- a creation whose two allocations succeed gives the empty, well-formed table in which no key is found -/
+theorem newTable_ok : ∃ t, newTable true true = (some t, 2) ∧ WF t ∧ ∀ k, abs t k = none :=
+  ⟨empty, rfl, wf_empty, abs_empty⟩
+
 /-- the source fact the translator pins (`tools/extract.py`, refusing any other text): every function of phashtable.c and
     plist.c is the text this model was written from, and neither file has file-scope state -/
 theorem container_source_as_modelled : Generated.containerShapesAsModelled = true := by decide
@@ -585,5 +597,8 @@ example : (insert empty 5 1).bind (fun t => insertOOM t 106 2) = insert empty 5 
 example : (insert empty 5 1).bind (fun t => insertOOM t 5 2) = insert empty 5 2 := by decide
 example : ((insert empty 7 0x109).bind (fun t => insert t 9 0x300)).map (fun t => lookupByValueF t (fun x => x >>> 8 == 1)) = some [7] := by decide
 example : lForeach [1, 2, 3] = [1, 2, 3] := by decide
+/-! non-vacuity of the creation statements: the second allocation failing, and both succeeding -/
+example : newTable true false = (none, 0) := newTable_failure_clean true false rfl
+example : (newTable true true).1.isSome = true := by decide
 
 end PV.HT
